@@ -12,6 +12,9 @@ Bounded-exhaustive enumeration (engine E5):
   D. every IfExpression tree up to a depth: value equals the reference (documented precedence
      table, string order) and equals the equivalent function-call form; ill-typed trees
      (operator result in string position) give ParseError, never an internal exception.
+  E. every substitution text of part A (up to a depth) written as a double quoted literal of an
+     expression: truth value and `== 'value'` agree with the reference substitution (documented:
+     literals are "subject to the same string substitution as in the recipes").
 """
 import itertools, re, sys, os, types
 from .. import runner
@@ -685,6 +688,74 @@ def _if_worker(chunk):
     return n, nt, outcomes, viol[:40]
 
 
+# ----------------------------------------------------------------------------- E: literals of expressions
+def _iflit_worker(job):
+    """A double quoted literal of an expression is "subject to the same string substitution as in the recipes"
+    (unset variables expand to empty): for every substitution tree text s the expressions "s" and "s" == 'v'
+    (v = reference value) must agree with the reference of part A."""
+    depth, thin, k, K = job
+    from bob.errors import ParseError
+    from bob.stringparser import Env, DEFAULT_STRING_FUNS, EXTRA_STRING_FUNS, IfExpression
+    funs = dict(DEFAULT_STRING_FUNS); funs.update(EXTRA_STRING_FUNS)
+    cfg = CFGS[0]
+    envs = []
+    for e in ENVS:
+        env = Env(e); env.setFuns(funs); env.setFunArgs({'sandbox': cfg['sandbox'], '__tools': {}})
+        envs.append(env)
+    n = nt = 0
+    viol = []
+    texts = set()
+
+    def real(expr, env):
+        try:
+            r = expr.evalExpression(env)
+            return ('ok', r) if isinstance(r, bool) else ('internal', 'non-bool', repr(r))
+        except ParseError:
+            return ('err',)
+        except Exception as ex:
+            return ('internal', type(ex).__name__, str(ex)[:100])
+
+    for i, atoms in enumerate(gen_strings(depth, 'top', thin)):
+        if (i // 64) % K != k: continue
+        text = render(atoms)
+        if text is None or text in texts or 'tool' in text or 'sandbox' in text: continue
+        texts.add(text)
+        lit = '"' + text.replace('\\', '\\\\').replace('"', '\\"') + '"'
+        try:
+            e1 = IfExpression(lit)
+        except ParseError:
+            viol.append(('iflit:literal-does-not-parse', lit, None, None, None)); continue
+        cmpcache = {}
+        for ei, e in enumerate(ENVS):
+            try:
+                v = ref_eval(atoms, e, False, cfg)
+            except Err:
+                v = Err
+            except Abstain:
+                continue
+            try:
+                exp = ('err',) if v is Err else ('ok', ref_bool(v))
+            except Abstain:
+                exp = None
+            got = real(e1, envs[ei]); n += 1
+            if got[0] == 'internal':
+                viol.append(('iflit:internal-exception:' + got[1], lit, e, exp, got))
+            elif exp is not None:
+                nt += 1
+                if got != exp: viol.append(('iflit:wrong-truth-value', lit, e, exp, got))
+            if v is not Err and "'" not in v:
+                for op, want in (('==', True), ('!=', False)):
+                    ctext = "%s %s '%s'" % (lit, op, v)
+                    if ctext not in cmpcache:
+                        try: cmpcache[ctext] = IfExpression(ctext)
+                        except ParseError: cmpcache[ctext] = None
+                    got = real(cmpcache[ctext], envs[ei]) if cmpcache[ctext] is not None else ('err',)
+                    n += 1; nt += 1
+                    if got != ('ok', want):
+                        viol.append(('iflit:literal-value-differs-from-substitution', ctext, e, ('ok', want), got))
+    return len(texts), n, nt, viol[:40]
+
+
 # ----------------------------------------------------------------------------- driver
 def run(ctx):
     quick = ctx.tier == 'quick'
@@ -758,6 +829,17 @@ def run(ctx):
     samples.append({'part': 'ifexpr', 'text': if_render(trees[-1], False)})
     states += len(trees); trans += ifn; nontriv += ifnt
 
+    # ---- E: expression literals = recipe substitution
+    litdepth = int(ctx.opts.get('litdepth', 0 if quick else 1))
+    K = 64
+    ln = le = lnt = 0
+    for c, n, nt, viols in runner.pmap_unordered(_iflit_worker, [(litdepth, thin, k, K) for k in range(K)]):
+        ln += c; le += n; lnt += nt
+        for v in viols:
+            ctx.violation(v[0], '%r env=%r expected=%r got=%r' % (v[1], v[2], v[3], v[4]), dict(part='iflit', text=v[1], env=v[2], expected=v[3], got=v[4]))
+    ctx.log('E: %d substitution texts (depth<=%d) as expression literals, %d evaluations, %d with defined expectation' % (ln, litdepth, le, lnt))
+    states += ln; trans += le; nontriv += lnt
+
     return ctx.finish(dict(
         states=states, transitions=trans, traces_validated_against_impl=trans,
         evaluations=trans, distinct_nontrivial=nontriv,
@@ -767,10 +849,10 @@ def run(ctx):
              'and it was compared; raw-string evaluations only count as type checks and are not in distinct_nontrivial',
         exhaustive=True, samples=samples,
         bounds=dict(tree_depth=depth, nested_arg_cap=thin, raw_len=rawlen, raw_alphabet=RAW_ALPHA, quote_len=qlen,
-                    quote_alphabet=Q_ALPHA, ifexpr_depth=ifdepth, ifexpr_per_behaviour_class=per_class,
+                    quote_alphabet=Q_ALPHA, ifexpr_depth=ifdepth, ifexpr_per_behaviour_class=per_class, literal_tree_depth=litdepth,
                     envs=len(ENVS), nounset=[True, False]),
         parts=dict(trees=a_cnt, tree_evaluations=a_eval, raw_evaluations=rawn, quote_round_trips=qn,
-                   ifexpr_trees=len(trees), ifexpr_evaluations=ifn),
+                   ifexpr_trees=len(trees), ifexpr_evaluations=ifn, literal_texts=ln, literal_evaluations=le),
         distinct_outcomes=sorted(outcomes | ifout)),
         assumptions=['reference semantics written from doc/manual/configuration.rst (String substitution, Boolean '
                      'properties) and doc/manpages/bobpaths.rst (operator table); where the documentation is silent '
